@@ -17,7 +17,7 @@ EXPLANATION = (
 NOT_DECIDED = ("that consecutive steps join up numerically, that the reported volume contains the "
                "position (C03), step >= displacement")
 
-TECHNIQUE = ('per-step-action effect sets (who may call which mutator) over the instantiation-level call graph; guard dominance and exact access-path arguments for the step-length/time setters; edge reachability and must-pass from the boundary edge of the linear propagator')
+TECHNIQUE = ('per-step-action effect sets (who may call which mutator) over the instantiation-level call graph; guard dominance and exact access-path arguments for the step-length/time setters; edge reachability and must-pass from the boundary edge of the linear propagator; edge-guard rule on every candidate that replaces the physics step limit; shared sub-step bound of the field driver')
 
 UNITS = [
     "src/celeritas/phys/detail/PreStepAction.cc",
